@@ -40,6 +40,17 @@ def slot_code(kind, k, rng):
         return T16(0x3000 | (r << 8) | 1)                          # ADDS Rk,#1
     if kind == 'lsls16':
         return T16(0x0000 | (1 << 6) | (r << 3) | r)               # LSLS Rk,Rk,#1
+    if kind == 'alu16':
+        # any 16-bit data-processing encoding whose S bit is "not in an IT block": none of them may touch the flags inside the block
+        name = rng.choice(ALU16)
+        row = e1prop.ROWS[name][1]
+        f = {l: rng.getrandbits(len(p)) for l, p in row.fields.items()}
+        if 'd' in f and rng.random() < 0.6:
+            f['d'] = r
+        return T16(row.build(**f))
+    if kind == 'cmp16':
+        row = e1prop.ROWS[rng.choice(('TST_T1_dp', 'CMP_T1_dp', 'CMN_T1_dp'))][1]
+        return T16(row.build(**{l: rng.getrandbits(len(p)) for l, p in row.fields.items()}))
     if kind == 'mov32':
         return T16(0xF04F0000 | (r << 8) | (0x20 + k), True)       # MOV.W Rk,#imm
     if kind == 'adds32':
@@ -71,7 +82,10 @@ def slot_code(kind, k, rng):
     raise KeyError(kind)
 
 
-MID = ['movs16', 'adds16', 'lsls16', 'mov32', 'adds32', 'cmp', 'ldr', 'str', 'svc', 'udf', 'ldr_abort', 'nop32', 'msr', 'clrex']
+ALU16 = ['LSL_imm_T1', 'LSR_imm_T1', 'ASR_imm_T1', 'ADD_reg_T1', 'SUB_reg_T1', 'ADD_imm_T1', 'SUB_imm_T1', 'MOV_imm_T1', 'ADD_imm_T2', 'SUB_imm_T2'] + \
+    [n + '_T1_dp' for n in ('AND', 'EOR', 'LSL', 'LSR', 'ASR', 'ADC', 'SBC', 'ROR', 'RSB', 'ORR', 'MUL', 'BIC', 'MVN')]
+assert all(n in e1prop.ROWS for n in ALU16)
+MID = ['alu16', 'alu16', 'alu16', 'cmp16', 'movs16', 'adds16', 'lsls16', 'mov32', 'adds32', 'cmp', 'ldr', 'str', 'svc', 'udf', 'ldr_abort', 'nop32', 'msr', 'clrex']
 LAST = MID + ['b', 'bx', 'pop_pc']
 
 
@@ -148,7 +162,7 @@ def shard_exhaustive(part, nparts, seed):
             if idx % nparts != part:
                 continue
             n = block_len(mask)
-            kinds = [rng.choice(('movs16', 'movs16', 'adds16', 'lsls16', 'mov32')) for _ in range(4)]
+            kinds = [rng.choice(('movs16', 'alu16', 'alu16', 'alu16', 'adds16', 'lsls16', 'mov32')) for _ in range(4)]
             case, n = build_case(rng, rng.choice(('v6', 'v7')), fc, mask, nzcv, kinds, rng.getrandbits(1), ('subs0', 'subs4'))
             info = {'firstcond': fc, 'mask': mask, 'nzcv': nzcv, 'n': n, 'kinds': kinds[:n], 'has_else': bin(mask).count('1') > 1 and n >= 2,
                     'flags_inside': False, 'exception_inside': False}
@@ -179,7 +193,7 @@ def shard_programs(seed, examples):
         case, n = build_case(rng, ('v6', 'v7', 'v7')[ci], fc, mask, nzcv, kinds, te, handler)
         used = kinds[:n]
         info = {'firstcond': fc, 'mask': mask, 'nzcv': nzcv, 'n': n, 'kinds': used, 'has_else': bin(mask).count('1') > 1 and n >= 2,
-                'flags_inside': any(k in ('cmp', 'adds32', 'msr') for k in used), 'exception_inside': any(k in ('svc', 'udf', 'ldr_abort') for k in used),
+                'flags_inside': any(k in ('cmp', 'cmp16', 'adds32', 'msr') for k in used), 'exception_inside': any(k in ('svc', 'udf', 'ldr_abort') for k in used),
                 'thumb_handlers': te}
         for k in used:
             acc.cls('slot:' + k)
@@ -191,7 +205,7 @@ def shard_programs(seed, examples):
 def run(ctx):
     ctx.rule = ('(1) exhaustive: all %d legal (firstcond, mask) pairs x 16 NZCV: IT followed by 1-4 16-bit flag-setting-form ALU / 32-bit MOV '
                 'instructions, then two unconditional flag-setting instructions; (2) Hypothesis-generated blocks whose slots come from a pool '
-                '(16/32-bit ALU, CMP inside the block, LDR/STR, SVC, UDF, an aborting LDR, B / BX / POP {pc} as last), with ARM or Thumb '
+                '(every 16-bit data-processing encoding whose S bit is "outside an IT block" (shift/add/sub/mov immediate and register forms, the 13 ALU register forms incl. RSB/MUL/MVN), 32-bit ALU, CMP/TST/CMN inside the block, LDR/STR, SVC, UDF, an aborting LDR, B / BX / POP {pc} as last), with ARM or Thumb '
                 'exception handlers that execute the standard return (MOVS PC,LR / SUBS PC,LR,#n). Every step of the program is compared with '
                 'the reference machine on the complete state (which slot executes, CPSR.IT after every step, flags untouched inside, SPSR IT bits '
                 'on exception entry, IT cleared in the handler, restored by the return). Non-trivial: block of >=2 with an else slot, or flags '
